@@ -1,8 +1,22 @@
-(* C01 — generic composition lemmas over Model.v *)
-From Coq Require Import List.
-From Verif.C01 Require Import Model.
-Import ListNotations.
+(* C01 — the generic composition theory.
 
+   A stream type [stype] is a message type together with the NET STATE its streams describe
+   ([s_net], a fold of [s_apply] from [s_net0]) and the notion of "same net state" ([s_eqv], plain
+   equality for all concrete stream types below except member families given as functions).
+
+   [hf n P Q F] ("history-free", the node_function_of_state shape of C02/C04/C07/C36):
+       for every input stream [is] admitted by [P], the outputs of node [n] are admitted by [Q]
+       and   net (everything n emitted)  ~  F (net is).
+   [P] carries both the contract the producer must respect and the points at which the claim is
+   made (for buffering nodes: "... and the stream ends with a flush").
+
+   Theorems: history-free nodes compose (sequentially = producer calls consumer; in parallel =
+   the dispatcher's fan-out; stateless maps), and a history-free pipeline's output net state is
+   the same for any two admitted histories with the same input net state. *)
+From stdpp Require Import gmap.
+From Verif.C01 Require Import Model.
+
+(* ------------------------------------------------------------------ run lemmas *)
 Lemma n_run_app {I O} (n : node I O) s a b :
   n_run n s (a ++ b) =
   let '(s1, o1) := n_run n s a in let '(s2, o2) := n_run n s1 b in (s2, o1 ++ o2).
@@ -31,4 +45,150 @@ Proof.
   unfold n_outs. change (n_init (pipe_seq n1 n2)) with (n_init n1, n_init n2).
   rewrite seq_run_gen. destruct (n_run n1 (n_init n1) is) as [s1 bs]; simpl.
   destruct (n_run n2 (n_init n2) bs); reflexivity.
+Qed.
+
+Definition lefts {B C} (l : list (B + C)) : list B := omap (λ x, match x with inl b => Some b | inr _ => None end) l.
+Definition rights {B C} (l : list (B + C)) : list C := omap (λ x, match x with inr c => Some c | inl _ => None end) l.
+
+Lemma lefts_app {B C} (a b : list (B + C)) : lefts (a ++ b) = lefts a ++ lefts b.
+Proof. apply omap_app. Qed.
+Lemma rights_app {B C} (a b : list (B + C)) : rights (a ++ b) = rights a ++ rights b.
+Proof. apply omap_app. Qed.
+Lemma lefts_inl {B C} (l : list B) : lefts (map (@inl B C) l) = l.
+Proof. induction l; simpl; [done|]. unfold lefts in *. simpl. by f_equal. Qed.
+Lemma lefts_inr {B C} (l : list C) : lefts (map (@inr B C) l) = [].
+Proof. induction l; simpl; [done|]. unfold lefts in *. by simpl. Qed.
+Lemma rights_inr {B C} (l : list C) : rights (map (@inr B C) l) = l.
+Proof. induction l; simpl; [done|]. unfold rights in *. simpl. by f_equal. Qed.
+Lemma rights_inl {B C} (l : list B) : rights (map (@inl B C) l) = [].
+Proof. induction l; simpl; [done|]. unfold rights in *. by simpl. Qed.
+
+Lemma par_run_gen {A B C} (n1 : node A B) (n2 : node A C) s1 s2 is :
+  let '(s, os) := n_run (pipe_par n1 n2) (s1, s2) is in
+  s = (fst (n_run n1 s1 is), fst (n_run n2 s2 is)) ∧
+  lefts os = snd (n_run n1 s1 is) ∧ rights os = snd (n_run n2 s2 is).
+Proof.
+  revert s1 s2; induction is as [|i r IH]; intros s1 s2; simpl; [done|].
+  destruct (n_step n1 s1 i) as [t1 bs]. destruct (n_step n2 s2 i) as [t2 cs].
+  specialize (IH t1 t2).
+  destruct (n_run (pipe_par n1 n2) (t1, t2) r) as [s os].
+  destruct (n_run n1 t1 r) as [u1 bs']. destruct (n_run n2 t2 r) as [u2 cs'].
+  simpl in *. destruct IH as (-> & IHl & IHr). split; [done|].
+  rewrite !lefts_app, !rights_app, lefts_inl, lefts_inr, rights_inl, rights_inr, IHl, IHr.
+  by rewrite app_nil_r.
+Qed.
+
+Lemma par_outs {A B C} (n1 : node A B) (n2 : node A C) is :
+  lefts (n_outs (pipe_par n1 n2) is) = n_outs n1 is ∧
+  rights (n_outs (pipe_par n1 n2) is) = n_outs n2 is.
+Proof.
+  unfold n_outs. change (n_init (pipe_par n1 n2)) with (n_init n1, n_init n2).
+  pose proof (par_run_gen n1 n2 (n_init n1) (n_init n2) is) as H.
+  destruct (n_run (pipe_par n1 n2) (n_init n1, n_init n2) is) as [s os]. simpl. tauto.
+Qed.
+
+Lemma map_outs {A B} (f : A → list B) is : n_outs (pipe_map f) is = is ≫= f.
+Proof.
+  unfold n_outs. simpl. generalize tt. induction is as [|i r IH]; intros u; simpl; [done|].
+  destruct u. specialize (IH tt). destruct (n_run (pipe_map f) tt r) as [s os]. simpl in *. by rewrite IH.
+Qed.
+
+(* ------------------------------------------------------------------ stream types and history-freeness *)
+Record stype := SType {
+  s_msg : Type;
+  s_net : Type;
+  s_net0 : s_net;
+  s_apply : s_net → s_msg → s_net;
+  s_eqv : s_net → s_net → Prop
+}.
+Definition net (X : stype) (ms : list (s_msg X)) : s_net X := foldl (s_apply X) (s_net0 X) ms.
+
+Definition hf {X Y : stype} (n : node (s_msg X) (s_msg Y))
+    (P : list (s_msg X) → Prop) (Q : list (s_msg Y) → Prop) (F : s_net X → s_net Y) : Prop :=
+  ∀ is, P is → Q (n_outs n is) ∧ s_eqv Y (net Y (n_outs n is)) (F (net X is)).
+
+(* the same through an abstraction of the node's state: abs (state after any history) = f (current inputs),
+   and what has been emitted is a function of abs *)
+Definition node_function_of_state {X Y : stype} (n : node (s_msg X) (s_msg Y))
+    (P : list (s_msg X) → Prop) (Q : list (s_msg Y) → Prop)
+    {A} (abs : n_state n → A) (f : s_net X → A) (g : A → s_net Y) : Prop :=
+  ∀ is, P is → Q (n_outs n is) ∧ abs (n_final n is) = f (net X is)
+                ∧ s_eqv Y (net Y (n_outs n is)) (g (abs (n_final n is))).
+
+Lemma fos_hf {X Y} (n : node (s_msg X) (s_msg Y)) P Q {A} (abs : n_state n → A) f g :
+  node_function_of_state n P Q abs f g → hf n P Q (g ∘ f).
+Proof. intros H is HP. destruct (H is HP) as (HQ & Ha & Ho). split; [exact HQ|]. unfold compose. rewrite <-Ha. exact Ho. Qed.
+
+Lemma hf_weaken {X Y} (n : node (s_msg X) (s_msg Y)) (P P' : _ → Prop) (Q Q' : _ → Prop) F :
+  (∀ is, P' is → P is) → (∀ os, Q os → Q' os) → hf n P Q F → hf n P' Q' F.
+Proof. intros HP HQ H is Hi. destruct (H is (HP _ Hi)). eauto. Qed.
+
+(* producer -> consumer *)
+Lemma hf_seq {X Y Z} (n1 : node (s_msg X) (s_msg Y)) (n2 : node (s_msg Y) (s_msg Z)) P Q R F1 F2 :
+  Transitive (s_eqv Z) →
+  (∀ a b, s_eqv Y a b → s_eqv Z (F2 a) (F2 b)) →
+  hf n1 P Q F1 → hf n2 Q R F2 → hf (pipe_seq n1 n2) P R (F2 ∘ F1).
+Proof.
+  intros HT HF H1 H2 is HP. rewrite seq_outs.
+  destruct (H1 is HP) as [HQ E1]. destruct (H2 _ HQ) as [HR E2]. split; [done|].
+  simpl. etrans; [exact E2|]. by apply HF.
+Qed.
+
+(* fan-out of one stream to two receivers: tagged union of the outputs, product of the net states *)
+Definition ssum (Y1 Y2 : stype) : stype :=
+  SType (s_msg Y1 + s_msg Y2) (s_net Y1 * s_net Y2) (s_net0 Y1, s_net0 Y2)
+        (λ s m, match m with inl a => (s_apply Y1 s.1 a, s.2) | inr b => (s.1, s_apply Y2 s.2 b) end)
+        (λ a b, s_eqv Y1 a.1 b.1 ∧ s_eqv Y2 a.2 b.2).
+
+Lemma foldl_ssum Y1 Y2 (os : list (s_msg (ssum Y1 Y2))) s1 s2 :
+  foldl (s_apply (ssum Y1 Y2)) (s1, s2) os =
+  (foldl (s_apply Y1) s1 (lefts os), foldl (s_apply Y2) s2 (rights os)).
+Proof.
+  revert s1 s2. induction os as [|[a|b] r IH]; intros s1 s2; [done| |].
+  - change (lefts (inl a :: r)) with (a :: lefts r). change (rights (inl a :: r)) with (rights r).
+    simpl. apply IH.
+  - change (lefts (inr b :: r)) with (lefts r). change (rights (inr b :: r)) with (b :: rights r).
+    simpl. apply IH.
+Qed.
+Lemma net_ssum Y1 Y2 (os : list (s_msg (ssum Y1 Y2))) :
+  net (ssum Y1 Y2) os = (net Y1 (lefts os), net Y2 (rights os)).
+Proof. apply foldl_ssum. Qed.
+
+Lemma hf_par {X Y1 Y2} (n1 : node (s_msg X) (s_msg Y1)) (n2 : node (s_msg X) (s_msg Y2)) P Q1 Q2 F1 F2 :
+  hf n1 P Q1 F1 → hf n2 P Q2 F2 →
+  hf (Y := ssum Y1 Y2) (pipe_par n1 n2) P (λ os, Q1 (lefts os) ∧ Q2 (rights os)) (λ s, (F1 s, F2 s)).
+Proof.
+  intros H1 H2 is HP.
+  destruct (H1 is HP) as [HQ1 E1]. destruct (H2 is HP) as [HQ2 E2].
+  pose proof (net_ssum Y1 Y2 (n_outs (pipe_par n1 n2) is)) as En.
+  pose proof (par_outs n1 n2 is) as [El Er].
+  split.
+  - split.
+    + change (Q1 (lefts (n_outs (pipe_par n1 n2) is))). by rewrite El.
+    + change (Q2 (rights (n_outs (pipe_par n1 n2) is))). by rewrite Er.
+  - change (s_eqv Y1 (net (ssum Y1 Y2) (n_outs (pipe_par n1 n2) is)).1 (F1 (net X is)) ∧
+            s_eqv Y2 (net (ssum Y1 Y2) (n_outs (pipe_par n1 n2) is)).2 (F2 (net X is))).
+    rewrite En. simpl.
+    change (s_eqv Y1 (net Y1 (lefts (n_outs (pipe_par n1 n2) is))) (F1 (net X is)) ∧
+            s_eqv Y2 (net Y2 (rights (n_outs (pipe_par n1 n2) is))) (F2 (net X is))).
+    by rewrite El, Er.
+Qed.
+
+(* stateless translation whose image stream has a net state determined by the source's *)
+Lemma hf_map {X Y : stype} (f : s_msg X → list (s_msg Y)) (P : _ → Prop) (Q : _ → Prop) G :
+  (∀ is, P is → Q (is ≫= f) ∧ s_eqv Y (net Y (is ≫= f)) (G (net X is))) →
+  hf (pipe_map f) P Q G.
+Proof. intros H is HP. rewrite map_outs. auto. Qed.
+
+(* ------------------------------------------------------------------ the consequence: no hysteresis *)
+Theorem hf_history_independent {X Y} (n : node (s_msg X) (s_msg Y)) P Q F :
+  Symmetric (s_eqv Y) → Transitive (s_eqv Y) →
+  (∀ a b, s_eqv X a b → s_eqv Y (F a) (F b)) →
+  hf n P Q F →
+  ∀ h1 h2, P h1 → P h2 → s_eqv X (net X h1) (net X h2) →
+  s_eqv Y (net Y (n_outs n h1)) (net Y (n_outs n h2)).
+Proof.
+  intros HS HT HF H h1 h2 P1 P2 E.
+  destruct (H h1 P1) as [_ E1]. destruct (H h2 P2) as [_ E2].
+  etrans; [exact E1|]. etrans; [apply HF, E|]. by symmetry.
 Qed.
